@@ -307,8 +307,10 @@ def run_gm(sp, case):
     alpha = case["frac"] / Lc
     x = x0.copy()
     tr = {}
+    # accelerate is passed only when it is on: the documented default (False) is part of "when not accelerated"
+    akw = {"accelerate": True} if case["acc"] else ({} if case["seed"] % 2 else {"accelerate": False})
     alg = sp.alg.GradientMethod(make_gradf(sp, case, A, y, n, tr), x, alpha, proxg=sp_prox(sp, case, n),
-                                accelerate=case["acc"], max_iter=case["niter"])
+                                max_iter=case["niter"], **akw)
     obs = []
     buffer_bad = None
     while not alg.done():
